@@ -18,7 +18,7 @@ Fixpoint assoc {V} (k : str) (l : list (str * V)) : option V :=
   | (k', v) :: r => if str_eqb k k' then Some v else assoc k r
   end.
 Definition oracle_of (t : tables) : oracle :=
-  {| o_loads := fun s => match assoc s (t_loads t) with Some v => v | None => POther end;
+  {| o_loads := fun s => match assoc s (t_loads t) with Some v => v | None => POther 2 end;
      o_int := fun s => match assoc s (t_int t) with Some z => z | None => None end;
      o_jsonbody := fun s => match assoc s (t_json t) with Some r => r | None => None end;
      o_textbody := fun s => match assoc s (t_text t) with Some r => r | None => None end;
@@ -26,7 +26,7 @@ Definition oracle_of (t : tables) : oracle :=
 
 Record case := { tabs : tables; hs : handles; steps : list step }.
 Definition obs := list (result * tbl).
-Definition run_model (c : case) : obs := run (oracle_of (tabs c)) (hs c) (steps c) [].
+Definition run_model (c : case) : obs := run (oracle_of (tabs c)) (hs c) (steps c) false [].
 
 (* ---------- sx encodings ---------- *)
 Definition key_sx (k : pkey) : sx :=
@@ -48,7 +48,7 @@ Fixpoint pv_sx (v : pv) : sx :=
                                | [] => []
                                | (k, x) :: r => L [key_sx k; pv_sx x] :: go r
                                end) l)]
-  | POther => L [I 8%Z]
+  | POther e => L [I 8%Z; sxN e]
   end.
 Definition ostr_sx (o : option str) : sx := match o with None => L [] | Some s => L [B s] end.
 Definition tbl_sx (m : tbl) : sx := L (map (fun e => L [B (fst (fst e)); B (snd (fst e)); B (snd e)]) m).
@@ -103,7 +103,7 @@ Fixpoint dec_pv (x : sx) : option pv :=
                              end
                          | _ => None
                          end) l)
-  | L [I 8%Z] => Some POther
+  | L [I 8%Z; e] => option_map POther (asN e)
   | _ => None
   end.
 Definition dec_ostr (x : sx) : option (option str) :=
@@ -196,13 +196,6 @@ Definition dec_request (x : sx) : option request :=
       Some {| meth := m; uri := u; allowed := a; clen := cl; body := b |}))
   | _ => None
   end.
-Definition dec_step (x : sx) : option step :=
-  match x with
-  | L [I 0%Z; i; o] => obind (asNat i) (fun i => option_map (SStore i) (dec_sop o))
-  | L [I 1%Z; i; q] => obind (asNat i) (fun i => option_map (SSource i) (dec_qop q))
-  | L [I 2%Z; i; r] => obind (asNat i) (fun i => option_map (SHandler i) (dec_request r))
-  | _ => None
-  end.
 Definition dec_mop (x : sx) : option mop :=
   match x with
   | L [I 0%Z; B s; B k; B t] => Some (MSet s k t)
@@ -211,6 +204,15 @@ Definition dec_mop (x : sx) : option mop :=
   | _ => None
   end.
 
+Definition dec_step (x : sx) : option step :=
+  match x with
+  | L [I 0%Z; i; o] => obind (asNat i) (fun i => option_map (SStore i) (dec_sop o))
+  | L [I 1%Z; i; q] => obind (asNat i) (fun i => option_map (SSource i) (dec_qop q))
+  | L [I 2%Z; i; r] => obind (asNat i) (fun i => option_map (SHandler i) (dec_request r))
+  | L [I 3%Z; b] => option_map SLock (asBool b)
+  | L [I 4%Z; o] => option_map SExt (dec_mop o)
+  | _ => None
+  end.
 (* ---------- the executable checker: operation sequences ---------- *)
 Definition list_N_eqb (a b : list N) : bool := if list_eq_dec N.eq_dec a b then true else false.
 Definition sx_eqb (a b : sx) : bool := list_N_eqb (print a) (print b).
@@ -231,26 +233,35 @@ Definition res_clause (st : step) : string :=
   | SStore _ _ => "delete_result"
   | SSource _ _ => "prefix_consistent"
   | SHandler _ _ => "update_handler_exact"
+  | SLock _ | SExt _ => "external_step"
   end%string.
 Definition dump_clause (st : step) (mutates : bool) : string :=
   match st with
   | SHandler _ _ => "update_handler_exact"
   | _ => if mutates then "write_visible_to_other_process_at_once" else "rejected_or_read_changes_nothing"
   end%string.
+Definition would_write (O : oracle) (H : handles) (st : step) (m : tbl) : bool :=
+  match fst (do_step O H st m) with Some _ => true | None => false end.
 
 (* each step is judged on the table the other process saw after the previous step *)
-Fixpoint check (O : oracle) (H : handles) (sts : list step) (m : tbl) (o : obs) : list string :=
+Fixpoint check (O : oracle) (H : handles) (sts : list step) (lk : bool) (m : tbl) (o : obs) : list string :=
   match sts with
   | [] => match o with [] => [] | _ :: _ => ["obs_shape"%string] end
   | st :: r =>
       match o with
       | [] => ["obs_shape"%string]
       | (res, d) :: o' =>
-          let (mo, res_m) := do_step O H st m in
-          let m' := apply_omop m mo in
-          (if res_eqb res res_m then [] else [res_clause st]) ++
-          (if tbl_eqb d (dump m') then [] else [dump_clause st (match mo with Some _ => true | None => false end)]) ++
-          check O H r (if tbl_eqb d (dump m') then m' else d) o'
+          match do_step_l O H st lk m with
+          | (mo, res_m, lk') =>
+              let m' := apply_omop m mo in
+              let failing_write := lk && would_write O H st m in
+              (if res_eqb res res_m then [] else
+                 [if failing_write then "locked_write_reports_failure"%string else res_clause st]) ++
+              (if tbl_eqb d (dump m') then [] else
+                 [if failing_write then "locked_write_changes_nothing"%string
+                  else dump_clause st (match mo with Some _ => true | None => false end)]) ++
+              check O H r lk' (if tbl_eqb d (dump m') then m' else d) o'
+          end
       end
   end.
 
@@ -273,7 +284,7 @@ Definition strict_ok (vt : pv * option str) : bool :=
 
 Definition holds (c : case) (o : obs) : list string :=
   nodup string_dec
-    (check (oracle_of (tabs c)) (hs c) (steps c) [] o ++
+    (check (oracle_of (tabs c)) (hs c) (steps c) false [] o ++
      (if forallb (image_ok (oracle_of (tabs c))) (case_values c) then [] else ["json_image_is_loads_dumps"%string])).
 
 (* hypothesis of the property on the oracle: loads(dumps(v)) is json_image v for the values of the case *)
